@@ -1072,6 +1072,10 @@ def units(tier, seed):
     step("1x1", dims=(1, 1), nv=2, wit=("not-accepted",), split=0)
     step("2x1 nv2", dims=(2, 1), nv=2, nres=2, nets="chain")
     step("2x1 nv3 fixed", dims=(2, 1), nv=3, nres=1, nets="fan", nfixed=1)
+    # two vertices fixed (possibly to the same chip, next to each other in
+    # its list) and a movable one that needs their room
+    step("2x1 nv3 two fixed", dims=(2, 1), nv=3, nres=1, nets="fan",
+         nfixed=2)
     step("2x2 nv2 dead", dims=(2, 2), nv=2, nres=1, nets="chain",
          dead=(1, 1))
     step("2x1 nv2 hot", dims=(2, 1), nv=2, nres=1, nets="self",
